@@ -93,7 +93,7 @@ func runC05(c *Ctx) {
 		}
 	}
 	// random, in parallel chunks
-	nRand := c.Q(30000, 2000000)
+	nRand := c.Q(30000, 16000000)
 	chunks := 64
 	Par(chunks, func(ci int) {
 		var local [2][4][256]bool
@@ -134,7 +134,7 @@ func runC05(c *Ctx) {
 	}
 
 	// histories on one object
-	nHist := c.Q(600, 20000)
+	nHist := c.Q(600, 200000)
 	Par(nHist, func(hi int) {
 		r := c.Rng(fmt.Sprintf("hist%d", hi))
 		key := r.Bytes(16)
